@@ -296,11 +296,36 @@ def mIncCount (line metric : String) (inc : Int) (s : MState) : Option MState :=
     | none => none
   else none
 
-def mMatchRanks (r1 r2 : String) (s : MState) : MState :=
+/-- the bookkeeping part of `matchRanks`: the symmetric closure of the match -/
+def matchClosure (r1 r2 : String) (s : MState) : List String × MState :=
   let arm := if dhas s.allRankMatches r1 then s.allRankMatches else dset s.allRankMatches r1 []
   let arm := if dhas arm r2 then arm else dset arm r2 []
   let all := union (union ((dget arm r1).getD []) ((dget arm r2).getD [])) (union [r1] [r2])
-  { s with allRankMatches := all.foldl (fun a r => dset a r (all.filter (· != r))) arm }
+  (all, { s with allRankMatches := all.foldl (fun a r => dset a r (all.filter (· != r))) arm })
+
+/-- a late match, for one source rank: unless it is registered or matched already, it is matched with
+    `rank` and its traces are started -/
+def lateSrc (rank : String) (s : MState) (src : String) : Option MState :=
+  match s.lineOrder with
+  | none => none
+  | some lo =>
+    if dhas lo src || dhas s.rankMatches src then some s
+    else startAll { s with rankMatches := dset s.rankMatches src rank } src
+
+/-- a late match, for one rank of the closure: only a rank that is already in the loop order acts -/
+def lateRank (s : MState) (rank : String) : Option MState :=
+  match s.lineOrder with
+  | none => none
+  | some lo =>
+    if dhas lo rank then ((dget s.allRankMatches rank).getD []).foldlM (lateSrc rank) s else some s
+
+/-- `matchRanks`: the closure is recorded; during collection a match with a rank that is already part
+    of the loop order takes effect at once.  (The code walks Python sets: when a closure holds two
+    registered ranks the rank an unmatched source ends up with depends on the set order — the model
+    walks `all` in list order; the correspondence only generates closures with one registered rank.) -/
+def mMatchRanks (r1 r2 : String) (s : MState) : Option MState :=
+  let c := matchClosure r1 r2 s
+  if c.2.collecting then c.1.foldlM lateRank c.2 else some c.2
 
 def mTrace (rank ty : String) (consumable : Bool) (s : MState) : Option MState :=
   if (consumable || s.pfx.isSome) && s.collecting then
@@ -334,7 +359,7 @@ def step (op : MOp) (s : MState) : Option (MRet × MState) :=
   | .incCount line metric inc => (mIncCount line metric inc s).map (fun s' => (.unit, s'))
   | .isCollecting => some (.bool s.collecting, s)
   | .isTraced rank ty => if s.collecting then some (.bool (dhas s.traces (rank, ty)), s) else none
-  | .matchRanks r1 r2 => some (.unit, mMatchRanks r1 r2 s)
+  | .matchRanks r1 r2 => (mMatchRanks r1 r2 s).map (fun s' => (.unit, s'))
   | .trace rank ty consumable => (mTrace rank ty consumable s).map (fun s' => (.unit, s'))
   | .consumeTrace rank ty => (mConsume rank ty s).map (fun x => (.rows x.1, x.2))
   | .setNumCachedUses n => if n > 1 then some (.unit, { s with numCachedUses := n }) else none
